@@ -133,7 +133,10 @@ class PolarizedRays(RealRays):
         # normalised gives an arbitrary, non-perpendicular s)
         parallel = mag < 1e-12
         if np.any(parallel):
-            s[parallel] = np.cross(k0[parallel], np.array([1.0, 0.0, 0.0]))
+            # same transverse frame as _get_3d_electric_field: s along
+            # (k x x) x k (the 'x' axis of the states), p = k x s along 'y'
+            x = np.array([1.0, 0.0, 0.0])
+            s[parallel] = np.cross(np.cross(k0[parallel], x), k0[parallel])
             mag = np.linalg.norm(s, axis=1)
 
         s /= mag[:, np.newaxis]
